@@ -2,6 +2,8 @@ package main
 
 import (
 	"verif/internal/effects"
+	"verif/internal/kinds"
+	"verif/internal/load"
 	"verif/internal/report"
 	"verif/internal/yacc"
 )
@@ -92,5 +94,18 @@ func init() {
 	psF := []report.Floor{{Rule: "pred-spec", What: "conditions", Min: 3}, {Rule: "pred-spec", What: "scenarios", Min: 100000}}
 	for _, id := range []string{"C08", "C03", "C02", "C01"} {
 		extendProp(id, ps, psF, func(c *Ctx) { defer c.cleanup(); c.scanRun("pred-spec") })
+	}
+	const vp = "visitor-per-item: in the command's worker loops every printer, dumper, traverser, formatter or name resolver is created in the iteration that uses it; one created before the loop carries its state (the printer's mode and last chunk, the resolver's tables) from one file into the next (seed C02-9: -pb printed a spurious close tag in front of every later file that starts with HTML)."
+	vpF := []report.Floor{{Rule: "visitor-per-item", What: "uses", Min: 4}}
+	for _, id := range []string{"C02", "C11", "C13"} {
+		extendProp(id, vp, vpF, func(c *Ctx) {
+			c.Fixture("mini", "visitor-per-item", true, func(p *load.Program, tb *kinds.Table) *report.RuleResult {
+				w, _ := effects.NewWorld(p)
+				r := effects.VisitorPerItem(w, "cmd/goodcli")
+				r.Merge(effects.VisitorPerItem(w, "cmd/badcli"), "bad:")
+				return r
+			})
+			c.ssaRepo("visitor-per-item", func(w *effects.World) *report.RuleResult { return effects.VisitorPerItem(w, "cmd/php-parser") })
+		})
 	}
 }
